@@ -20,6 +20,8 @@ BOUNDS = {
              "dimension -1..5 x length 0..5 with symbolic real elements for constructor forms, CreateEmptyArray, arithmetic, pickling, ChangingIndex, IndexAsScalar",
     "thorough": "same with real lists up to dimension 7 / length 7 and three-step Curve chains",
 }
+BOUNDS_ALSO = '; also: ChangingIndex across units related by an offset (5 unit pairs x dimension 2,3 x index x container); Curves over nested containers (list of points, 2-D ndarray) through 5 entry points'
+BOUNDS = {k_: v_ + BOUNDS_ALSO for k_, v_ in BOUNDS.items()}
 ASSUMPTIONS = ["module-global len shim returns the symbolic length of a SymSeq", "SymInt payload differential: no observable equals the payload",
                "A-FP for element amounts", "Curve: one inductive step from an arbitrary state satisfying len(image)==len(domain) covers call sequences of any length"]
 CHUNK = 20
